@@ -114,7 +114,8 @@ def path(eng, acc, task):
     fails = []
     try:
         nrm = x.orthonormalize(mode=mode)
-    except (AssertionError, ValueError, IndexError, KeyError, TypeError, ZeroDivisionError) as e:
+    except Exception as e:
+        reraise_internal(e)
         import traceback
         tb = traceback.extract_tb(e.__traceback__)[-1]
         candidate(eng, acc, task, 'orthonormalize', f'orth:{kind}:{mode}:raises:{type(e).__name__}@{tb.name}', repr(e), inputs)
